@@ -369,7 +369,8 @@ LEVEL_TEXT = ("Exploration by runtime monitoring: the IDX invariant (get_record 
               "is evaluated at the exit of every record-adding entry point while generated programs are being built, and explicitly -- with "
               "QualifiedName (same object, other Namespace object, other prefix), printed, bare and full-URI spellings of present and absent "
               "identifiers -- during construction and on every container derived by constructor records, add_record, update, add_bundle, "
-              "unified, flattened and JSON/XML deserialisation.")
+              "unified, flattened and JSON/XML deserialisation."
+              " Look-ups also use Identifier objects, another split of the same URI, document-level prefixes on bundles adopted from a document that died; typed listings are consumed after a later addition; a third of the cases runs with warnings as errors and IDX is evaluated when a record-adding call raises.")
 LEVEL_NOTE = ("Trusted: the scan of get_records() as ground truth; the URI a string spelling denotes is computed from the container's public "
               "namespace declarations. Bounded documents; held on the observed executions only.")
 DESIGN_REF = "DESIGN.md section 5 (IDX) and section 6, C18"
